@@ -340,6 +340,55 @@ class Factory(object):
         desc = {'class': 'ListGrader', 'mode': 'grouped', 'ordered': ordered, 'inner_ordered': inner_ordered, 'grouping': grouping, 'config': cfg}
         return {'cls': 'ListGrader', 'desc': desc, 'make': make, 'ninputs': 4, 'good': [good_in], 'partial': [part], 'wrong': [['q', 'r', 's', 't']]}
 
+    def random_config(self):
+        """
+        An item grader with SEVERAL options drawn at once from the in-domain pools of the C20 option table (the table
+        transcribed from the documentation).  Combinations the constructor refuses are skipped by the caller
+        (make() raises).  What the options do to the verdict is not predicted here: only the universal laws apply.
+        """
+        from vf.props import c20
+        rng = self.rng
+        table = c20.spec_table()
+        name = rng.choice(['StringGrader', 'FormulaGrader', 'NumericalGrader', 'MatrixGrader', 'SingleListGrader', 'IntervalGrader'])
+        spec = table[name]
+        skip = {'debug', 'attempt_based_credit', 'attempt_based_credit_msg', 'answers', 'subgrader', 'sample_from', 'variables', 'numbered_vars'}
+        opts = [o for o in spec['options'] if o not in skip]
+        chosen = {}
+        for o in rng.sample(opts, min(len(opts), rng.randint(2, 5))):
+            pool = spec['options'][o][1][0]
+            if pool:
+                chosen[o] = rng.choice(pool)
+        base = {'StringGrader': dict(answers=({'expect': 'cat', 'msg': 'use {braces}'}, {'expect': 'two words', 'grade_decimal': 0.5})),
+                'FormulaGrader': dict(answers=('x^2+1', {'expect': '2*x', 'grade_decimal': 0.5, 'msg': '50% {x}'}), variables=['x']),
+                'NumericalGrader': dict(answers=('3.5', {'expect': '7', 'grade_decimal': 0.25})),
+                'MatrixGrader': dict(answers='[x, 2*x]', variables=['x']),
+                'SingleListGrader': dict(answers=(['cat', 'dog'], {'expect': ['a', 'b'], 'grade_decimal': 0.5, 'msg': 'alt'})),
+                'IntervalGrader': dict(answers='[1, 2)')}[name]
+        inputs = {'StringGrader': (['cat', ' cat '], ['two words', 'TWO  WORDS'], ['dog', 'c at', '']),
+                  'FormulaGrader': (['x^2+1', '1+x*x'], ['2*x', 'x+x'], ['x', 'x^2+1k', 'sin(x)', '2x']),
+                  'NumericalGrader': (['3.5', '7/2'], ['7'], ['9', '3.5k', 'sqrt(-1)']),
+                  'MatrixGrader': (['[x, 2*x]', 'x*[1,2]'], ['[x, 0]'], ['x', '[x,2*x,0]', '[[x,2*x]]', '1/[x,2*x]']),
+                  'SingleListGrader': (['cat, dog', 'dog,cat'], ['a, b', 'cat'], ['x', 'cat,,dog', 'cat;dog', '']),
+                  'IntervalGrader': (['[1, 2)', '[1,4/2)'], ['(1,2)', '[1,3)'], ['[1', '1,2', '{1,2}', '[1;2)'])}[name]
+        delim = chosen.get('delimiter', ',') if name in ('SingleListGrader', 'IntervalGrader') else None
+        if delim not in (None, ','):
+            inputs = tuple([x.replace(',', delim) for x in grp] for grp in inputs)
+            if name == 'IntervalGrader':
+                base = dict(answers='[1%s 2)' % delim)
+
+        def make(**ov):
+            import mitxgraders as M
+            c = dict(base)
+            c.update(chosen)
+            c.update(ov)
+            if name == 'SingleListGrader':
+                c['subgrader'] = M.StringGrader()
+            if name in ('FormulaGrader', 'MatrixGrader') and 'sample_from' not in c:
+                c['sample_from'] = {'x': lib.Scripted(values=[CANARY_SAMPLE, 2.5, 1.25])}
+            return getattr(M, name)(**c)
+        return {'cls': name, 'desc': {'class': name, 'options_drawn_together': chosen, 'answers': base['answers']}, 'make': make, 'ninputs': None,
+                'good': list(inputs[0]), 'partial': list(inputs[1]), 'wrong': list(inputs[2]), 'random_config': True}
+
     def any(self):
         r = self.rng.random()
         if r < 0.55:
